@@ -1,7 +1,250 @@
 /-
-  Helper lemmas (RunN).
+  Helper lemmas (RunN): the resize pre-flight without faults, as a function on trees.
 -/
 import TB.Spec.ExportSpec
+import TB.Lemmas.RunB
 namespace TB.RunN
+open TB.RB
+
+/-! ### names and inodes -/
+
+theorem look_inoOf {fs : Fs} {p : Path} {i : Nat} (h : fs.look p = .file i) : fs.inoOf p = some i := by
+  unfold Fs.look at h
+  split at h
+  · cases h
+  · split at h
+    · cases h
+    · split at h
+      · rename_i j hj
+        cases h
+        exact hj
+      · split at h <;> cases h
+
+theorem look_congr {fs fs0 : Fs} (h1 : fs.files = fs0.files) (h2 : fs.dirs = fs0.dirs) (p : Path) :
+    fs.look p = fs0.look p := by
+  simp only [Fs.look, Fs.inoOf, Fs.isDir, h1, h2, ite_self]
+
+theorem inoOf_congr {fs fs0 : Fs} (h1 : fs.files = fs0.files) (p : Path) :
+    fs.inoOf p = fs0.inoOf p := by
+  simp only [Fs.inoOf, h1]
+
+/-! ### the first pass -/
+
+theorem openr_val (st : St) (hf : st.faults = []) (p : Path) :
+    (st.openr p).2 = (match st.fs.look p with | .file _ => true | .dir => true | _ => false) := by
+  unfold St.openr
+  rw [St.op_nofault _ _ _ _ (by rw [hf]; rfl)]
+  rfl
+
+theorem openrw_val (st : St) (hf : st.faults = []) (p : Path) :
+    (st.op .openrw p (natOpenrw p)).2 = (match st.fs.look p with | .file _ => true | _ => false) := by
+  rw [St.op_nofault _ _ _ _ (by rw [hf]; rfl)]
+  rfl
+
+theorem openrw_fs (st : St) (p : Path) : (st.op .openrw p (natOpenrw p)).1.fs = st.fs :=
+  St.op_fs_ro _ _ _ _ (fun _ => rfl)
+
+/-- no fault, no over-long image, no directory or file-below-file: the first pass goes through -/
+theorem pass1_ok (es : List TEntry) :
+    ∀ st : St, st.faults = [] →
+      (∀ e ∈ es, e.isPad = false →
+        (∀ i, st.fs.look e.fullTarget = .file i → (st.fs.content i).length ≤ e.fileLength) ∧
+        st.fs.look e.fullTarget ≠ .notDir ∧ st.fs.look e.fullTarget ≠ .dir) →
+      (resizePass1 st es).2 = .continue ∧ (resizePass1 st es).1.fs = st.fs ∧
+        (resizePass1 st es).1.faults = [] := by
+  induction es with
+  | nil => intro st hfa _; exact ⟨rfl, rfl, hfa⟩
+  | cons e es ih =>
+    intro st hfa h
+    have hfs1 := St.openr_fs st e.fullTarget
+    have hfa1 := (St.openr_faults st e.fullTarget).trans hfa
+    have tl := ih (st.openr e.fullTarget).1 hfa1
+      (fun x hx hp => by rw [hfs1]; exact h x (List.mem_cons_of_mem _ hx) hp)
+    have tl' : (resizePass1 (st.openr e.fullTarget).1 es).2 = .continue ∧
+        (resizePass1 (st.openr e.fullTarget).1 es).1.fs = st.fs ∧
+        (resizePass1 (st.openr e.fullTarget).1 es).1.faults = [] := ⟨tl.1, tl.2.1.trans hfs1, tl.2.2⟩
+    rw [resizePass1_cons]
+    cases hp : e.isPad
+    · obtain ⟨hl, hnd, hd⟩ := h e List.mem_cons_self hp
+      have hv := openr_val st hfa e.fullTarget
+      simp only [Bool.false_eq_true, if_false]
+      cases hlook : st.fs.look e.fullTarget with
+      | notDir => exact absurd hlook hnd
+      | dir => exact absurd hlook hd
+      | notFound =>
+        rw [hlook] at hv
+        simp only at hv
+        rw [hv, hfa]
+        simpa using tl'
+      | file i =>
+        rw [hlook] at hv
+        simp only at hv
+        have := hl i hlook
+        rw [← hfs1] at this
+        rw [hv]
+        simp only [Bool.not_true, Bool.false_eq_true, if_false]
+        rw [if_neg (by omega)]
+        exact tl'
+    · simp only [if_true]
+      exact ih st hfa (fun x hx hp => h x (List.mem_cons_of_mem _ hx) hp)
+
+/-! ### the second pass, one entry -/
+
+/-- the tree after the second pass has processed one entry (no fault) -/
+def step (fs : Fs) (e : TEntry) : Fs :=
+  if e.isPad then fs else
+  match fs.look e.fullTarget with
+  | .file i => if (fs.content i).length < e.fileLength then fs.setLen i e.fileLength else fs
+  | _ => fs
+
+theorem pass2_step (st : St) (e : TEntry) (es : List TEntry) (hfa : st.faults = [])
+    (hl : e.isPad = false → st.fs.look e.fullTarget ≠ .notDir ∧ st.fs.look e.fullTarget ≠ .dir) :
+    ∃ st', resizePass2 st (e :: es) = resizePass2 st' es ∧ st'.fs = step st.fs e ∧ st'.faults = [] := by
+  rw [resizePass2_cons]
+  cases hp : e.isPad
+  · obtain ⟨hnd, hd⟩ := hl hp
+    have hv := openrw_val st hfa e.fullTarget
+    have hfs1 := openrw_fs st e.fullTarget
+    have hfa1 := (St.op_faults st .openrw e.fullTarget (natOpenrw e.fullTarget)).trans hfa
+    simp only [Bool.false_eq_true, if_false]
+    cases hlook : st.fs.look e.fullTarget with
+    | notDir => exact absurd hlook hnd
+    | dir => exact absurd hlook hd
+    | notFound =>
+      rw [hlook] at hv
+      simp only at hv
+      rw [hv, hfa]
+      refine ⟨(st.op .openrw e.fullTarget (natOpenrw e.fullTarget)).1, by simp, ?_, hfa1⟩
+      rw [hfs1]
+      simp [step, hp, hlook]
+    | file i =>
+      rw [hlook] at hv
+      simp only at hv
+      rw [hv]
+      simp only [Bool.not_true, Bool.false_eq_true, if_false]
+      by_cases hlt : ((st.op .openrw e.fullTarget (natOpenrw e.fullTarget)).1.fs.content i).length < e.fileLength
+      · rw [if_pos hlt]
+        have h2 := St.op_nofault (st.op .openrw e.fullTarget (natOpenrw e.fullTarget)).1 (.setlen e.fileLength)
+          e.fullTarget (fun fs => (fs.setLen i e.fileLength, true)) (by rw [hfa1]; rfl)
+        rw [h2]
+        simp only [if_true]
+        refine ⟨_, rfl, ?_, hfa1⟩
+        rw [hfs1] at hlt ⊢
+        simp [step, hp, hlook, hlt]
+      · rw [if_neg hlt]
+        refine ⟨_, rfl, ?_, hfa1⟩
+        rw [hfs1] at hlt ⊢
+        simp [step, hp, hlook, hlt]
+  · exact ⟨st, by simp, by simp [step, hp], hfa⟩
+
+/-! ### the invariant of the second pass -/
+
+/-- `fs` is `fs0` with some images of the table zero-extended to their declared length -/
+def Inv (fs0 : Fs) (table : List TEntry) (fs : Fs) : Prop :=
+  fs.files = fs0.files ∧ fs.dirs = fs0.dirs ∧
+  ∀ i, fs.content i = fs0.content i ∨
+    ∃ e ∈ table, e.isPad = false ∧ fs0.look e.fullTarget = .file i ∧ (fs0.content i).length < e.fileLength ∧
+      fs.content i = fs0.content i ++ List.replicate (e.fileLength - (fs0.content i).length) 0
+
+theorem Inv.refl (fs0 : Fs) (table : List TEntry) : Inv fs0 table fs0 :=
+  ⟨rfl, rfl, fun _ => Or.inl rfl⟩
+
+theorem setLen_content_same (fs : Fs) (i n : Nat) (h : (fs.content i).length ≤ n) :
+    (fs.setLen i n).content i = fs.content i ++ List.replicate (n - (fs.content i).length) 0 := by
+  unfold Fs.setLen
+  rw [Fs.content_setData_same]
+  split
+  · have : n = (fs.content i).length := by omega
+    rw [this]; simp
+  · rfl
+
+theorem setLen_content_other (fs : Fs) (i j n : Nat) (h : j ≠ i) :
+    (fs.setLen i n).content j = fs.content j :=
+  Fs.content_setData_other _ _ _ _ h
+
+theorem step_inv (fs0 : Fs) (table : List TEntry)
+    (hs1 : ∀ e ∈ table, ∀ f ∈ table, e.isPad = false → f.isPad = false → e.fullTarget = f.fullTarget →
+      e.fileLength = f.fileLength)
+    (hs2 : ∀ e ∈ table, ∀ f ∈ table, e.isPad = false → f.isPad = false → e.fullTarget ≠ f.fullTarget →
+      ∀ i j, fs0.inoOf e.fullTarget = some i → fs0.inoOf f.fullTarget = some j → i ≠ j)
+    (fs : Fs) (e : TEntry) (he : e ∈ table) (hinv : Inv fs0 table fs) :
+    Inv fs0 table (step fs e) ∧
+    (∀ j, (fs.content j).length ≤ ((step fs e).content j).length) ∧
+    (e.isPad = false → ∀ i, fs0.look e.fullTarget = .file i → e.fileLength ≤ ((step fs e).content i).length) := by
+  obtain ⟨hf, hd, hc⟩ := hinv
+  have hlk := look_congr hf hd e.fullTarget
+  unfold step
+  cases hp : e.isPad
+  · simp only [Bool.false_eq_true, if_false]
+    rw [hlk]
+    cases hlook : fs0.look e.fullTarget with
+    | notDir => exact ⟨⟨hf, hd, hc⟩, fun _ => Nat.le_refl _, fun _ i h => by cases h⟩
+    | dir => exact ⟨⟨hf, hd, hc⟩, fun _ => Nat.le_refl _, fun _ i h => by cases h⟩
+    | notFound => exact ⟨⟨hf, hd, hc⟩, fun _ => Nat.le_refl _, fun _ i h => by cases h⟩
+    | file i =>
+      simp only
+      by_cases hlt : (fs.content i).length < e.fileLength
+      · rw [if_pos hlt]
+        have hsame := setLen_content_same fs i e.fileLength (Nat.le_of_lt hlt)
+        -- the image has not been extended yet
+        have hinit : fs.content i = fs0.content i := by
+          rcases hc i with h | ⟨e', he', hp', hl', hlt', hc'⟩
+          · exact h
+          · exfalso
+            have hlen : (fs.content i).length = e'.fileLength := by
+              rw [hc']; simp; omega
+            by_cases hne : e'.fullTarget = e.fullTarget
+            · have := hs1 e' he' e he hp' hp hne
+              omega
+            · exact hs2 e' he' e he hp' hp hne i i (look_inoOf hl') (look_inoOf hlook) rfl
+        refine ⟨⟨hf, hd, fun j => ?_⟩, fun j => ?_, fun _ j hj => ?_⟩
+        · by_cases hji : j = i
+          · subst hji
+            right
+            refine ⟨e, he, hp, hlook, by rw [← hinit]; exact hlt, ?_⟩
+            rw [hsame, hinit]
+          · rw [setLen_content_other _ _ _ _ hji]
+            exact hc j
+        · by_cases hji : j = i
+          · subst hji
+            rw [hsame]; simp
+          · rw [setLen_content_other _ _ _ _ hji]
+            exact Nat.le_refl _
+        · cases hj
+          rw [hsame]; simp; omega
+      · rw [if_neg hlt]
+        exact ⟨⟨hf, hd, hc⟩, fun _ => Nat.le_refl _, fun _ j hj => by cases hj; omega⟩
+  · simp only [if_true]
+    exact ⟨⟨hf, hd, hc⟩, fun _ => Nat.le_refl _, fun h => by cases h⟩
+
+/-- the second pass without faults: it goes through, keeps the invariant, never shrinks a file, and every
+    existing image of an entry it has seen is at least as long as declared -/
+theorem pass2_all (fs0 : Fs) (table : List TEntry)
+    (hs1 : ∀ e ∈ table, ∀ f ∈ table, e.isPad = false → f.isPad = false → e.fullTarget = f.fullTarget →
+      e.fileLength = f.fileLength)
+    (hs2 : ∀ e ∈ table, ∀ f ∈ table, e.isPad = false → f.isPad = false → e.fullTarget ≠ f.fullTarget →
+      ∀ i j, fs0.inoOf e.fullTarget = some i → fs0.inoOf f.fullTarget = some j → i ≠ j)
+    (hlook : ∀ e ∈ table, e.isPad = false → fs0.look e.fullTarget ≠ .notDir ∧ fs0.look e.fullTarget ≠ .dir)
+    (es : List TEntry) :
+    ∀ st : St, st.faults = [] → Inv fs0 table st.fs → (∀ e ∈ es, e ∈ table) →
+      (resizePass2 st es).2 = .continue ∧ Inv fs0 table (resizePass2 st es).1.fs ∧
+      (∀ j, (st.fs.content j).length ≤ ((resizePass2 st es).1.fs.content j).length) ∧
+      (∀ e ∈ es, e.isPad = false → ∀ i, fs0.look e.fullTarget = .file i →
+        e.fileLength ≤ ((resizePass2 st es).1.fs.content i).length) := by
+  induction es with
+  | nil => intro st _ hinv _; exact ⟨rfl, hinv, fun _ => Nat.le_refl _, fun e he => by cases he⟩
+  | cons e es ih =>
+    intro st hfa hinv hsub
+    have he := hsub e List.mem_cons_self
+    obtain ⟨st', hst, hfs', hfa'⟩ := pass2_step st e es hfa (fun hp => by
+      rw [look_congr hinv.1 hinv.2.1]; exact hlook e he hp)
+    obtain ⟨s1, s2, s3⟩ := step_inv fs0 table hs1 hs2 st.fs e he hinv
+    rw [← hfs'] at s1 s2 s3
+    obtain ⟨i1, i2, i3, i4⟩ := ih st' hfa' s1 (fun x hx => hsub x (List.mem_cons_of_mem _ hx))
+    rw [hst]
+    refine ⟨i1, i2, fun j => Nat.le_trans (s2 j) (i3 j), fun x hx hp i hi => ?_⟩
+    rcases List.mem_cons.1 hx with rfl | hx
+    · exact Nat.le_trans (s3 hp i hi) (i3 i)
+    · exact i4 x hx hp i hi
 
 end TB.RunN
